@@ -83,16 +83,12 @@ func readOneRecord(r io.Reader) ([]byte, error) {
 }
 
 // sameRecord compares two records exactly except for the record-layer
-// legacy_version, which may be 0x0301 or 0x0303 (RFC 8446 5.1).
+// legacy_version (bytes 1-2), which the property allows to be normalised.
 func sameRecord(got, want []byte) bool {
 	if len(got) != len(want) || len(got) < 5 {
 		return false
 	}
-	if got[0] != want[0] || !bytes.Equal(got[3:], want[3:]) {
-		return false
-	}
-	v := int(got[1])<<8 | int(got[2])
-	return v == 0x0301 || v == 0x0303 || (got[1] == want[1] && got[2] == want[2])
+	return got[0] == want[0] && bytes.Equal(got[3:], want[3:])
 }
 
 func hx(b []byte) string { return hex.EncodeToString(b) }
@@ -120,3 +116,14 @@ func drawKey(t *rapid.T, label string, id int, publicName string) *hello.Key {
 }
 
 var _ = wire.New
+
+// uniform draws an integer in [0,n) that is uniformly spread (rapid's own
+// integer generators favour small values).
+func uniform(t *rapid.T, label string, n int) int {
+	x := rapid.Uint64().Draw(t, label)
+	x += 0x9e3779b97f4a7c15
+	x = (x ^ (x >> 30)) * 0xbf58476d1ce4e5b9
+	x = (x ^ (x >> 27)) * 0x94d049bb133111eb
+	x ^= x >> 31
+	return int(x % uint64(n))
+}
